@@ -70,8 +70,8 @@ class InvLoop:
     def _inv_list(self, p, j):
         r = self.inv(self, p, j)
         if isinstance(r, list):
-            return r
-        return [('inv', r)]
+            return [(e[0], e[1], (e[2] if len(e) > 2 else None)) for e in r]
+        return [('inv', r, None)]
 
     def havoc(self, eng, p, s, fr, tag):
         q = p.fork()
@@ -125,15 +125,15 @@ class InvLoop:
         lname = f'loop{fr.loop_ordinals.get(id(s))}'
         # ---- entry
         j0 = IntVal(0)
-        for nm, g in self._inv_list(p, j0):
-            eng.obligations.append(Obligation(f'{where}/{lname}/entry.{nm}', list(p.pc), g, 'loop', where, path=p))
+        for nm, g, o_ in self._inv_list(p, j0):
+            eng.add_obligation(f'{where}/{lname}/entry.{nm}', p.pc, g, 'loop', p, {'lemmas': (o_ or {}).get('lemmas')})
         # ---- preserve
         ph = self.havoc(eng, p, s, fr, f'{lname}h')
         j = fresh(f'{lname}_j', IntSort())
         hyp = []
         if is_for:
             hyp += [j >= 0, j < N]
-        for nm, g in self._inv_list(ph, j):
+        for nm, g, _o in self._inv_list(ph, j):
             hyp.append(g)
         ph.pc.extend(hyp)
         if self.lemmas:
@@ -164,17 +164,22 @@ class InvLoop:
                 body_paths.append(q2)
         for bi, q in enumerate(body_paths):
             jn = (j + 1) if is_for else j
-            for nm, g in self._inv_list(q, jn):
-                eng.obligations.append(Obligation(f'{where}/{lname}/preserve{bi}.{nm}', list(q.pc), g, 'loop', where, path=q))
+            for nm, g, o_ in self._inv_list(q, jn):
+                o_ = o_ or {}
+                if 'prove' in o_:
+                    alt = o_['prove'](self, q, jn)      # skolemised form of the same clause + hints
+                    eng.add_obligation(f'{where}/{lname}/preserve{bi}.{nm}', q.pc, alt[0], 'loop', q, alt[1])
+                else:
+                    eng.add_obligation(f'{where}/{lname}/preserve{bi}.{nm}', q.pc, g, 'loop', q, {'lemmas': o_.get('lemmas')})
         # ---- exit
         pe = self.havoc(eng, p, s, fr, f'{lname}x')
         if is_for:
             Nn = If(N > 0, N, 0)
-            for nm, g in self._inv_list(pe, Nn):
+            for nm, g, _o in self._inv_list(pe, Nn):
                 pe.pc.append(g)
             out = [pe]
         else:
-            for nm, g in self._inv_list(pe, None):
+            for nm, g, _o in self._inv_list(pe, None):
                 pe.pc.append(g)
             out = []
             for q, c in eng.ev_cond(pe, s.test, fr):
